@@ -16,6 +16,7 @@ def vsStep (s : VS) (t : String) : Option (VS × String) :=
   | ["ad", i, ty, v] => do let s' := s.step (.adopt (← i.toNat?) (← ty.toNat?) (← v.toInt?)); pure (s', showHolders s')
   | ["cl", i] => do let s' := s.step (.clear (← i.toNat?)); pure (s', showHolders s')
   | ["su", i] => do let s' := s.step (.surrender (← i.toNat?)); pure (s', showHolders s')
+  | ["ra", i] => do let s' := s.step (.readopt (← i.toNat?)); pure (s', showHolders s')
   | ["vc", i, ty] => do
       let r := s.cast (← i.toNat?) (← ty.toNat?)
       pure (s, match r with | some v => s!"v{v}" | none => "badcast")
